@@ -1,4 +1,5 @@
 //! Independent reference implementations (codecs, models, reference server).
 //! This crate must never depend on the `rdp` crate.
+pub mod crypto;
 pub mod planar;
 pub mod rle16;
